@@ -4,6 +4,7 @@ Dispatch of line-protocol commands to model functions.
 import LithiumModel.Proto
 import LithiumModel.Load
 import LithiumModel.World
+import LithiumModel.Minimize
 
 namespace Dispatch
 open Proto
@@ -117,6 +118,64 @@ def cmdWorld (b p r a disk runs : String) : String :=
     | none => "bad-op"
   | _, _ => "bad-op"
 
+/-! ### strategies -/
+
+def decRepeat : String → Option Strat.Repeat
+  | "always" => some .always
+  | "last" => some .last
+  | "never" => some .never
+  | _ => none
+
+/-- `min,max,repeat,repeatFirst,stopAfter,move` -/
+def decCfg (s : String) : Option Strat.Cfg :=
+  match s.splitOn "," with
+  | [mn, mx, rp, rf, sa, mv] => do
+    let mn ← mn.toNat?
+    let mx ← mx.toNat?
+    let rp ← decRepeat rp
+    let sa ← (if sa == "N" then some none else sa.toNat?.map some)
+    pure { min := mn, max := mx, rep := rp, repeatFirst := rf == "1", stopAfter := sa, move := mv == "1" }
+  | _ => none
+
+/-- verdict sequence `0110...`; tests beyond the end are rejected -/
+def decOracle (s : String) : Strat.Oracle :=
+  let l := s.toList
+  fun k _ => l.getD k '0' == '1'
+
+/-- clock `N` (constant 0) or `t0,t1,...`: time after k tests, the last entry repeats -/
+def decClock (s : String) : Option Strat.Clock :=
+  if s == "N" then some (fun _ => 0) else do
+    let l ← (s.splitOn ",").mapM String.toNat?
+    pure (fun k => l.getD k (l.getLastD 0))
+
+def encResp : Strat.Resp → String
+  | .accepted => "a"
+  | .rejected => "r"
+  | .skipped => "s"
+
+def encAtt (a : Strat.Att) : String :=
+  s!"{a.tag}:{a.lo}:{a.hi}:{a.bestLen}:{encResp a.resp}:{encBytes a.cand.content}"
+
+def encIt (it : Strat.It) : String :=
+  let atts := it.atts.reverse
+  let flags := (if it.outOfFuel then "F" else "") ++ (if it.internalError then "E" else "")
+  s!"best={encBytes it.best.before}/{encList it.best.parts}/{encBools it.best.reducible}/{encBytes it.best.after} " ++
+  s!"n={it.nTests} flags={flags} atts=" ++ (if atts.isEmpty then "." else ";".intercalate (atts.map encAtt))
+
+def cmdStrategy (name cfg b p r a verdicts clock : String) : String :=
+  match decCfg cfg, decTestcase b p r a, decClock clock with
+  | some cfg, some t, some clk =>
+    let o := decOracle verdicts
+    match name with
+    | "minimize" => encIt (Strat.minimize cfg o clk t)
+    | _ => "bad-op"
+  | _, _, _ => "bad-op"
+
+def cmdPow2 (s : String) : String :=
+  match s.toInt? with
+  | some i => if Util.isPowerOfTwo i then "1" else "0"
+  | none => "bad-op"
+
 def step (line : String) : String :=
   match line.splitOn " " with
   | ["lines", d] =>
@@ -126,6 +185,13 @@ def step (line : String) : String :=
   | ["load", kind, d] => cmdLoad kind d
   | ["rmslice", p, r, a, b] => cmdRmslice p r a b
   | ["world", b, p, r, a, disk, runs] => cmdWorld b p r a disk runs
+  | ["strategy", name, cfg, b, p, r, a, verdicts, clock] => cmdStrategy name cfg b p r a verdicts clock
+  | ["pow2", i] => cmdPow2 i
+  | ["lp2", n] => (n.toNat?.map (fun n => toString (Util.lp2 n))).getD "bad-op"
+  | ["divup", a, b] =>
+    (match a.toNat?, b.toNat? with
+     | some a, some b => if b = 0 then "zerodiv" else toString (Util.divUp a b)
+     | _, _ => "bad-op")
   | _ => "bad-op"
 
 end Dispatch
